@@ -118,9 +118,13 @@ def injection_oracle(c):
         return (e[0], e[2], repr(sorted((k, _canon(v)) for k, v in e[3].items() if k not in ('_yatiml_extra', spot))))
     calls = sorted(sig(e) for e in c.log if e[0] in ('init', 'strctor'))
     if c.desc.startswith('base:'):
-        _base_logs[c.desc[5:]] = calls
+        # only a base load that SUCCEEDED has a complete log: on a failing load the calls made before the failure depend on
+        # PyYAML's scheduling of deferred constructor bodies, and need not be a superset of the injected document's
+        _base_logs[c.desc[5:]] = calls if c.outcome[0] == 'ok' else None
         return None
     if c.desc.startswith('inject:'):
+        if _base_logs.get(c.desc[7:].split('|')[0]) is None:
+            return None
         base = list(_base_logs.get(c.desc[7:].split('|')[0], []))
         if spot == '_yatiml_extra' and isinstance(c.tyspec, tuple):
             # a document key spelt _yatiml_extra never gets past the attribute check: the host itself is not built
